@@ -258,6 +258,9 @@ func (g *gen) run(c *Case, nontrivial bool) {
 		g.journal.WriteAt(b[:], 0)
 	}
 	g.st.Evals++
+	if evid.FastStopRequested() {
+		g.stop = true
+	}
 	if c.Env == nil && len(g.envNames) > 0 {
 		if c.Env = evid.DrawEnv(g.envNames, rng.Mix(g.cfg.Seed, uint64(seq)*31+uint64(g.cfg.W))); c.Env != nil {
 			g.st.Fault("environment-variable-set")
@@ -301,6 +304,7 @@ func (g *gen) run(c *Case, nontrivial bool) {
 		}
 		raw, _ := json.Marshal(&rec)
 		g.st.Violations = append(g.st.Violations, evid.Violation{Property: g.cfg.Prop, Signature: v.sig, What: v.what, Case: raw, Seq: seq, W: g.cfg.W})
+		evid.FastStopSignal()
 		if len(g.st.Violations) >= g.vcap {
 			g.stop = true
 		}
